@@ -400,6 +400,7 @@ def mon_c04(meta, tr, progs):
     if w:
         return w
     active = {}          # (kind, key) -> depth
+    sched_open, cancel_open, sched_overlap = {}, set(), {}
     destroyed = set()
     cancelled = {}       # todo id -> still cancelled (not re-scheduled)
     for idx, (k, a) in enumerate(tr):
@@ -417,6 +418,16 @@ def mon_c04(meta, tr, progs):
             active[key] = max(0, active.get(key, 0) - 1)
         elif k == 31 and a[0] != 1 and a[2] in (50, 51):
             cancelled[a[3]] = False          # a (re)scheduling call has begun: the task may run before that call returns
+            sched_open[a[3]] = sched_open.get(a[3], 0) + 1
+            if a[3] in cancel_open:
+                sched_overlap[a[3]] = True
+        elif k == 31 and a[0] != 1 and a[2] == 52:
+            cancel_open.add(a[3])
+            if sched_open.get(a[3], 0) > 0:
+                sched_overlap[a[3]] = True   # a scheduling call of the same ToDo is in flight: either may take effect last
+        elif k == 32 and a[0] != 1 and a[2] in (50, 51):
+            sched_open[a[3]] = max(0, sched_open.get(a[3], 0) - 1)
+            cancelled[a[3]] = False
         elif k == 32 and a[0] != 1:
             opc, arg = a[2], a[3]
             if opc == 28:
@@ -427,7 +438,8 @@ def mon_c04(meta, tr, progs):
             elif opc == 52:
                 if active.get((5, arg), 0) > 0:
                     return "Cancel() of ToDo %d returned on thread %d while its task is still running" % (arg, a[0])
-                cancelled[arg] = True
+                cancelled[arg] = not sched_overlap.pop(arg, False)
+                cancel_open.discard(arg)
             elif opc in (50, 51):
                 cancelled[arg] = False
         elif (k == 34 and a[0] == 1) or (k == 20 and a[0] in (41, 42) and a[1] == 0):
@@ -542,7 +554,7 @@ def mon_todo(meta, tr):
     now = 0
     now_of = {}          # last clock reading per thread (a delay is relative to the caller's own reading)
     cur = {}             # thread currently inside a top-level op (handlers/tasks run on the driver thread 1)
-    inflight, ran_inflight, anon = {}, {}, {}
+    inflight, ran_inflight, anon, cancelling = {}, {}, {}, {}
     for k, a in tr:
         if k == 1:
             now = max(now, a[0])
@@ -556,6 +568,12 @@ def mon_todo(meta, tr):
                     anon[a[0]] = now
                 else:
                     inflight[a[3]] = now
+                    if a[3] in cancelling:
+                        cancelling[a[3]] = True          # overlaps a Cancel of the same ToDo: either may take effect last
+            elif a[2] == 52:
+                cancelling[a[3]] = a[3] in inflight
+        elif k == 32 and a[2] == 52:
+            cancelling.pop(a[3], None)
         elif k == 32 and a[2] in (50, 51):
             if a[3] == -1:
                 anon.pop(a[0], None)
@@ -577,7 +595,8 @@ def mon_todo(meta, tr):
                 base = min(now_of.values()) if now_of else now
                 pending[tid_] = base + val * MS
         elif k == 20 and a[0] == 52 and a[1] == 1:
-            pending.pop(a[2], None)
+            if not cancelling.get(a[2]):
+                pending.pop(a[2], None)          # (a Cancel that overlapped a scheduling call of the same ToDo may have come first)
         elif k == 21 and a[0] == 5:
             tid_ = a[1]
             if tid_ in inflight and not (tid_ in pending and pending[tid_] <= now):
